@@ -92,6 +92,16 @@ def gen(rng, tier):
                 c['noshape'] = False
                 c.pop('partial', None)
         out.append(c)
+    # on every run: wind files on grids of two or three cells whose data records are as long as the OTHER kind of time header
+    # (two cells under the three-word header, three cells under the two-word header); the remaining small grids are ambiguous
+    # by their sizes (DESIGN, C08 block)
+    for cells, stags in ((2, [0, 1]), (3, [None])):
+        c = S.gen_wind(rng)
+        c['family'] = 'wind'
+        c['nx'], c['ny'] = rng.choice([(cells, 1), (1, cells)])
+        c['stag'] = rng.choice(stags)
+        c['data'] = [[[camx.rand_f32_bits(rng) for _ in range(cells)] for _ in range(2 * c['nz'])] for _ in c['flags']]
+        out.append(c)
     return out
 
 
@@ -152,7 +162,23 @@ def impl(case):
         p = os.path.join(camx.tmpdir(), 'c13_%d_%d.bin' % (os.getpid(), np.random.randint(1 << 30)))
         open(p, 'wb').write(b)
         try:
-            return dict(hex=b.hex(), memmap=_read(case, p, 'memmap'), read=_read(case, p, 'read'))
+            res = dict(hex=b.hex(), memmap=_read(case, p, 'memmap'), read=_read(case, p, 'read'))
+            if not (case.get('noshape') or case.get('partial') or case.get('irregular') or case.get('anyfile')):
+                # the record reader given a RecordFile object that another reader has used already (its cursor is somewhere in
+                # the file): the same answer
+                try:
+                    with lib.time_limit(8):
+                        from PseudoNetCDF.camxfiles.FortranFileUtil import RecordFile
+                        cls = S._cls(S.FORMATS[case['fmt']][3])
+                        rf = RecordFile(p)
+                        first = cls(rf, case['ny'], case['nx'])
+                        S.view(first, case)
+                        res['read_again'] = S.view(cls(rf, case['ny'], case['nx']), case)
+                except lib.HarnessError:
+                    raise
+                except Exception as e:
+                    res['read_again'] = dict(err='%s %s' % (type(e).__name__, str(e)[:80]))
+            return res
         finally:
             os.remove(p)
 
@@ -282,6 +308,9 @@ def oracle(case, res):
             return 'readers disagree on shapes %s vs %s' % (a['shapes'], b['shapes'])
     if a['vars'] != b['vars']:
         return 'readers disagree on data'
+    if 'read_again' in res and res['read_again'] != b:
+        return 'the record reader on a RecordFile object that another reader used before differs from the reader on the path: %s' % (
+            res['read_again'].get('err') or [k for k in b if res['read_again'].get(k) != b[k]])
     # the record readers present midnight as hour 0 of the next day, also when the file labels it hour 24 of the day that ends
     norm = [[d + 1, 0.0] if h == 2400 else [d, float(h)] for d, h in case['flags']]
     if 'timerange' in b and b['timerange'] != norm:
